@@ -127,13 +127,15 @@ class Inliner:
                 h.body = self._block(h.body, scope, stack, depth, changed)
         if depth >= MAX_DEPTH:
             return [st]
-        site = self._site(st)
+        site = None
+        for cand in self._sites(st):
+            t, r = self._target(cand[0], cand[1], scope)
+            if t is not None and t.fq not in stack:
+                site, target, recv = cand, t, r
+                break
         if site is None:
             return [st]
         call, awaited, holder, fld = site
-        target, recv = self._target(call, awaited, scope)
-        if target is None or target.fq in stack:
-            return [st]
         expansion = self._expand(st, call, awaited, holder, fld, target, recv)
         if expansion is None:
             return [st]
@@ -143,31 +145,45 @@ class Inliner:
         return self._block(expansion, scope, stack + (target.fq,), depth + 1, changed)
 
     # ------------------------------------------------------------------ sites
-    def _site(self, st: ast.stmt):
-        """(call, awaited, holder node, field) for the expression evaluated first by ``st``."""
+    def _sites(self, st: ast.stmt):
+        """Candidate call sites of ``st`` in evaluation order, each as (call, awaited, holder, field)
+        where ``setattr(holder, field, x)`` / ``holder[field] = x`` replaces the (awaited) call:
+        the expression the statement evaluates first, then — through a call whose callee is a plain
+        name / attribute chain — its first argument, and so on."""
         if isinstance(st, ast.Expr):
             holder, fld = st, "value"
         elif isinstance(st, ast.Return) and st.value is not None:
             holder, fld = st, "value"
-        elif isinstance(st, ast.Assign) and len(st.targets) == 1 and isinstance(st.targets[0], ast.Name):
+        elif isinstance(st, ast.Assign) and len(st.targets) == 1 and _pure_target(st.targets[0]):
             holder, fld = st, "value"
-        elif isinstance(st, ast.AnnAssign) and st.value is not None and isinstance(st.target, ast.Name):
+        elif isinstance(st, ast.AnnAssign) and st.value is not None and _pure_target(st.target):
             holder, fld = st, "value"
         elif isinstance(st, ast.If):
             holder, fld = st, "test"
         else:
-            return None
+            return []
+        out = []
         e = getattr(holder, fld)
-        while True:
-            if isinstance(e, ast.UnaryOp) and isinstance(e.op, ast.Not):
+        for _ in range(4):
+            while isinstance(e, ast.UnaryOp) and isinstance(e.op, ast.Not):
                 holder, fld, e = e, "operand", e.operand
-                continue
-            break
-        if isinstance(e, ast.Await) and isinstance(e.value, ast.Call):
-            return e.value, True, holder, fld
-        if isinstance(e, ast.Call):
-            return e, False, holder, fld
-        return None
+            if isinstance(e, ast.Await) and isinstance(e.value, ast.Call):
+                out.append((e.value, True, holder, fld))
+                call = e.value
+            elif isinstance(e, ast.Call):
+                out.append((e, False, holder, fld))
+                call = e
+            else:
+                break
+            # the callee expression is a pure lookup: the first argument is evaluated next
+            if not _is_field_chain(call.func) or not call.args or isinstance(call.args[0], ast.Starred):
+                break
+            holder, fld, e = call.args, 0, call.args[0]
+        return out
+
+    def _site(self, st: ast.stmt):
+        sites = self._sites(st)
+        return sites[0] if sites else None
 
     def _target(self, call: ast.Call, awaited: bool, scope: Unit):
         if any(isinstance(a, ast.Starred) for a in call.args) or any(k.arg is None for k in call.keywords):
@@ -237,7 +253,14 @@ class Inliner:
                 if bound & t_locals:
                     return None
         # free (global) names of the callee must mean the same thing in the caller
-        free = {x.id for x in ast.walk(fn) if isinstance(x, ast.Name)} - t_locals
+        # (annotations of parameters, results and locals are never evaluated by the inlined body)
+        unevaluated: set = set()
+        for x in ast.walk(fn):
+            anns = [x.annotation] if isinstance(x, (ast.arg, ast.AnnAssign)) and x.annotation is not None else \
+                [x.returns] if isinstance(x, (ast.FunctionDef, ast.AsyncFunctionDef)) and x.returns is not None else []
+            for ann in anns:
+                unevaluated |= {id(y) for y in ast.walk(ann)}
+        free = {x.id for x in ast.walk(fn) if isinstance(x, ast.Name) and id(x) not in unevaluated} - t_locals
         if free & self.caller_locals:
             return None
         if target.module is not self.caller.module:
@@ -324,7 +347,7 @@ class Inliner:
         if isinstance(st, ast.Return):
             # ``return not <call>``: the (pure) context moves into every return of the callee
             hole = "__asl_hole__"
-            setattr(holder, fld, ast.Name(id=hole, ctx=ast.Load()))
+            _put(holder, fld, ast.Name(id=hole, ctx=ast.Load()))
             template = st.value
 
             def wrap(r: ast.Return) -> List[ast.stmt]:
@@ -336,7 +359,7 @@ class Inliner:
             if not _ends_in_return(body):
                 body.extend(wrap(ast.copy_location(ast.Return(value=None), call)))
             return pre + body
-        result_used = not isinstance(st, ast.Expr)
+        result_used = not (isinstance(st, ast.Expr) and holder is st)
         direct = isinstance(st, (ast.Assign,)) and holder is st and isinstance(st.targets[0], ast.Name) \
             and st.targets[0].id not in {x.id for x in ast.walk(call) if isinstance(x, ast.Name)}
         if result_used and not direct:
@@ -373,13 +396,23 @@ class Inliner:
             return out
         # the statement itself, with the call replaced by the result variable
         ref = ast.copy_location(ast.Name(id=ret_name, ctx=ast.Load()), call)
-        setattr(holder, fld, ref)
-        if isinstance(st, ast.If):
-            return out + [st]
+        _put(holder, fld, ref)
         return out + [st]
 
 
 # ---------------------------------------------------------------------- helpers
+def _put(holder, fld, value) -> None:
+    if isinstance(holder, list):
+        holder[fld] = value
+    else:
+        setattr(holder, fld, value)
+
+
+def _pure_target(t: ast.AST) -> bool:
+    """an assignment target whose evaluation has no side effect (a name or a field chain)"""
+    return isinstance(t, ast.Name) or (isinstance(t, ast.Attribute) and _is_field_chain(t))
+
+
 def _inline_return(at: ast.AST) -> ast.Break:
     b = ast.copy_location(ast.Break(), at)
     b.asl_inline_return = True  # leaves the inlined block (asl.cfg), whatever loops it sits in
@@ -403,12 +436,30 @@ def _own_returns(body: List[ast.stmt]):
         stack.extend(ast.iter_child_nodes(s))
 
 
+def _never_falls_through(body: List[ast.stmt], kinds) -> bool:
+    """The block cannot complete normally: its last statement is a jump of ``kinds`` or an
+    if/else or try statement all of whose arms are such blocks."""
+    if not body:
+        return False
+    last = body[-1]
+    if isinstance(last, kinds):
+        return True
+    if isinstance(last, ast.If):
+        return _never_falls_through(last.body, kinds) and _never_falls_through(last.orelse, kinds)
+    if isinstance(last, ast.Try):
+        if last.finalbody and _never_falls_through(last.finalbody, kinds):
+            return True
+        main = _never_falls_through(last.orelse, kinds) if last.orelse else _never_falls_through(last.body, kinds)
+        return main and all(_never_falls_through(h.body, kinds) for h in last.handlers)
+    return False
+
+
 def _ends_in_return(body: List[ast.stmt]) -> bool:
-    return bool(body) and isinstance(body[-1], (ast.Return, ast.Raise))
+    return _never_falls_through(body, (ast.Return, ast.Raise))
 
 
 def _ends_in_jump(body: List[ast.stmt]) -> bool:
-    return bool(body) and isinstance(body[-1], (ast.Break, ast.Raise, ast.Return, ast.Continue))
+    return _never_falls_through(body, (ast.Break, ast.Raise, ast.Return, ast.Continue))
 
 
 def _in_loop(body: List[ast.stmt], target: ast.AST) -> bool:
